@@ -548,6 +548,18 @@ def r03b_defeat_remaining(ctx):
                 fill = isinstance(prev, ast.If) and atoms.formula(prev.test) == ('lit', 'G', False) and not prev.orelse \
                     and len(prev.body) == 1 and isinstance(prev.body[0], ast.For) and is_selector_call(ctx, f, prev.body[0].iter, 'hopeful') \
                     and body_always_calls(ctx, f, prev.body[0], ('elect',))
+                if not fill and isinstance(anchor.parent, ast.If) and anchor.parent.orelse == [anchor] and atoms.formula(anchor.parent.test) == ('lit', 'G', False) \
+                        and len(anchor.parent.body) == 1 and isinstance(anchor.parent.body[0], ast.For) \
+                        and is_selector_call(ctx, f, anchor.parent.body[0].iter, 'hopeful') and body_always_calls(ctx, f, anchor.parent.body[0], ('elect',)):
+                    # the same step as one statement: `if len(C.hopeful()) <= E.seatsLeftToFill(): <elect all> else: <defeat all>`
+                    fill = True
+                    anchor = anchor.parent
+                    prev = anchor
+                    blk = None
+                    for fld in ('body', 'orelse'):
+                        b = getattr(anchor.parent, fld, None)
+                        if isinstance(b, list) and any(x is anchor for x in b):
+                            blk = b
                 after_loop = anchor.parent is f.node and anchor.lineno > ri.main_loop().end_lineno
                 exits = _exit_formulas(ctx, ri, atoms)
                 bad_exits = [x for x, phi in exits if not _entails_done(phi)]
